@@ -229,6 +229,7 @@ const PLACEMENTS: &[&str] = &[
     "filter-section",
     "set-block-in-filter-section-autoescaped",
     "call-body-in-set-block-autoescaped",
+    "include-under-shadowing-set-and-loop",
 ];
 
 fn fill(shape: &str, f: [&str; 3]) -> String {
@@ -266,6 +267,16 @@ fn place(body: &str, placement: &str) -> Program {
             templates: vec![
                 ("i.txt".into(), body.into()),
                 ("t.txt".into(), "<{% include \"i.txt\" %}>".into()),
+            ],
+            entry: "t.txt".into(),
+        },
+        // the includer shadows names of the render context (an assignment, a loop variable): fused
+        // and unfused loads inside the included template must both walk the includer's scopes
+        // (seeded change C09-7: a fast path of LoadName went straight to the render context)
+        "include-under-shadowing-set-and-loop" => Program {
+            templates: vec![
+                ("i.txt".into(), body.into()),
+                ("t.txt".into(), "{% set a = {\"b\": \"shadow\"} %}{% for n in [7] %}<{% include \"i.txt\" %}>{% endfor %}".into()),
             ],
             entry: "t.txt".into(),
         },
